@@ -108,6 +108,9 @@ func dominatesInstr(a ssa.Instruction, b ssa.Instruction) bool {
 
 func (ld *Loaded) protectScan(fd *FieldDecl) *FuncResult {
 	o := &Obligation{Name: shortStem(fd.Pkg, fd.Type) + "#protect:" + fd.Field, Kind: "protect", Static: true, Props: fd.Props}
+	if fd.Kind == "storesconst" || fd.Kind == "mapvalues" {
+		o.Name += "." + fd.Kind
+	}
 	tname := fd.Pkg + "." + fd.Type
 	accs := ld.accessesOf(tname, fd.Field)
 	var bad []string
@@ -244,6 +247,36 @@ func (ld *Loaded) protectScan(fd *FieldDecl) *FuncResult {
 				default:
 					note(a, "slice of sync values used by "+r.String())
 				}
+			}
+		}
+	case "storesconst":
+		// monotone flag: every store outside the constructors stores the given constant
+		for _, a := range accs {
+			if !a.store && !a.other {
+				continue
+			}
+			st, isStore := a.in.(*ssa.Store)
+			if !isStore || a.other {
+				note(a, "address of the field escapes")
+				continue
+			}
+			if c, ok := st.Val.(*ssa.Const); !ok || c.Value == nil || c.Value.ExactString() != strings.TrimSpace(fd.Arg) {
+				note(a, "stores a value other than "+fd.Arg)
+			}
+		}
+	case "mapvalues":
+		// the content invariant travels with the map object: the field only ever receives fresh maps
+		for _, a := range accs {
+			if !a.store && !a.other {
+				continue
+			}
+			st, isStore := a.in.(*ssa.Store)
+			if !isStore || a.other {
+				note(a, "address of the map field escapes")
+				continue
+			}
+			if _, ok := st.Val.(*ssa.MakeMap); !ok {
+				note(a, "stores a map that is not freshly made")
 			}
 		}
 	case "unprotected":
